@@ -152,7 +152,8 @@ Qed.
 Lemma tag_no_case_terminal t : terminal (fun s => s) (tag_no_case t).
 Proof.
   intros st i st' res E. unfold tag_no_case in E.
-  destruct (take_bytes (rem i) (length t)) eqn:T; [destruct (ci_eqb a t)|..]; inversion E; subst; split; auto;
+  destruct (take_bytes (rem i) (length t)) eqn:T; [destruct (ci_eqb a t && negb (word_tag t && starts_ident b))|..];
+    inversion E; subst; split; auto;
   try (apply consume_ok; eapply take_bytes_app; eassumption).
 Qed.
 Lemma ci_eqb_ok a : forall b, ci_eqb a b = true -> ci_eq a b.
@@ -163,7 +164,8 @@ Qed.
 Lemma tag_no_case_ci t : forall st i st' a r, tag_no_case t st i = (st', Ok a r) -> ci_eq a t.
 Proof.
   intros st i st' a r E. unfold tag_no_case in E. destruct (take_bytes (rem i) (length t)); try discriminate.
-  destruct (ci_eqb a0 t) eqn:C; inversion E; subst. apply ci_eqb_ok. assumption.
+  destruct (ci_eqb a0 t) eqn:C; cbn [andb] in E; [|discriminate].
+  destruct (negb (word_tag t && starts_ident b)); inversion E; subst. apply ci_eqb_ok. assumption.
 Qed.
 
 Lemma value_sound {A} (v : A) P at_ : at_ v = [] -> sound P at_ (value_p v).
@@ -453,4 +455,21 @@ Proof.
   - intros HP. destruct (H1 HP) as [X T]. rewrite exact_pieces in *. rewrite <- E1. split; assumption.
   - auto.
   - intros Hi Hl. apply L1; auto.
+Qed.
+
+(* peek: nothing is consumed, the value carries no pieces *)
+Lemma peek_sound {A} P (sa : A -> list atom) (p : parser A) : sound P sa p -> sound P (fun _ => []) (peek p).
+Proof.
+  intros Hp st i st' res E. unfold peek in E. destruct (p st i) as [st1 [a r| |x]] eqn:Ep; inversion E; subst;
+    destruct (Hp _ _ _ _ Ep) as [Hs Hr]; split; auto.
+  split; [intros _; split; [reflexivity|reflexivity]|]. split; [constructor|]. intros _ H; discriminate.
+Qed.
+
+(* nested: entering and leaving a nesting level does not touch diagnostics; beyond the limit a diagnostic is reported *)
+Lemma nested_sound {A} P (sa : A -> list atom) k (p : parser A) : sound P sa p -> sound P sa (nested k p).
+Proof.
+  intros Hp st i st' res E. unfold nested in E. destruct (nesting (enter_nesting st) <=? k)%nat.
+  - destruct (p (enter_nesting st) i) as [st2 r] eqn:Ep. inversion E; subst. destruct (Hp _ _ _ _ Ep) as [Hs Hr].
+    split; [exact Hs|]. destruct res; auto.
+  - inversion E; subst. split; [|exact I]. exact (report_error_sle _ (enter_nesting st)).
 Qed.
